@@ -137,7 +137,7 @@ func generate(t *kernel.Tape) *scn {
 	s.global = t.Bool(3, "global")
 	s.authz = t.Weighted("authz", 3, 3, 2, 1)
 	s.broken = t.Weighted("broken", 5, 1, 1, 1, 1)
-	s.flow = t.Choose(2, "flow")
+	s.flow = t.Choose(3, "flow")
 	return s
 }
 
@@ -252,6 +252,21 @@ func (prop) Run(t *testing.T, tape *kernel.Tape, sc kernel.Scenario) *kernel.Res
 	u.RegisterOperation("GET", "/open", &simapi.Handler{W: world, Op: "open"})
 	ctx := middleware.NewContext(doc, u, nil)
 	handler := ctx.APIHandler(nil)
+	if s.flow == 2 {
+		// an application middleware in front of the operation executor that looks at the principal
+		// (for logging, say) and does not act on a refusal: refusing is the secure wrapper's job
+		handler = ctx.APIHandler(func(next http.Handler) http.Handler {
+			return http.HandlerFunc(func(w http.ResponseWriter, r *http.Request) {
+				if route, rr, ok := ctx.RouteInfo(r); ok {
+					r = rr
+					if _, ra, err := ctx.Authorize(r, route); err == nil && ra != nil {
+						r = ra
+					}
+				}
+				next.ServeHTTP(w, r)
+			})
+		})
+	}
 
 	// ---- the route entry whose Schemes we permute
 	probe := httptest.NewRequest("POST", "/api/secure/x", nil)
@@ -399,7 +414,7 @@ func serve(env *kernel.Env, s *scn, ctx *middleware.Context, handler http.Handle
 	var o observed
 	r, st := buildRequest(env, s)
 	rec := httptest.NewRecorder()
-	if s.flow == 0 {
+	if s.flow == 0 || s.flow == 2 {
 		if pm := kernel.Catch(func() { handler.ServeHTTP(rec, r) }); pm != "" {
 			env.Violate("C02/panic", "full-handler", "serving panicked: %s", pm)
 		}
@@ -532,10 +547,14 @@ func judge(env *kernel.Env, s *scn, o observed, slot *simapi.Obs, order string) 
 		}
 	}
 	admittedObserved := slot.AuthzCalls > 0 || slot.HandlerRan > 0 || (s.flow == 1 && o.authErr == nil) ||
-		(s.flow == 0 && s.authz == 0 && o.status != 0 && !isAuthStatus(o.status, errCodes))
+		(s.flow != 1 && s.authz == 0 && o.status != 0 && !isAuthStatus(o.status, errCodes))
 	// ---- soundness: admission needs a satisfied alternative (or clean anonymous)
 	if admittedObserved && !anyS && !(anon && !consultedErr) {
-		env.Violate("C02/admitted-without-satisfied-alternative", cause(s, anon, consultedErr),
+		sig := cause(s, anon, consultedErr)
+		if s.flow == 2 {
+			sig = "after-an-earlier-rejected-authorize"
+		}
+		env.Violate("C02/admitted-without-satisfied-alternative", sig,
 			"order %s: request was admitted (authorizer calls %d, handler ran %d, status %d) although no alternative is satisfied (consulted %v)", order, slot.AuthzCalls, slot.HandlerRan, o.status, slot.AuthCalls)
 		return
 	}
